@@ -21,8 +21,8 @@ func init() {
 		Explanation: "Decides ONE clause of the property — 'the selected pages … are always within 1 to the page count; page collections … also within range' — for the functions of pkg/api/selectPages.go. " +
 			"Sinks: every key stored into a types.IntSet, every element appended to a []int page collection, and every argument handed to processPageForCollection. " +
 			"For each sink value k the rule proves k ≥ 1 and k ≤ pageCount at the sink from the shape of the code: constants; the pageCount parameter; comparisons on dominating branch edges (if i > pageCount { return }, the loop guard j <= thru, if pageCount-i < 1 { return }; expressions are matched structurally because SSA recomputes pageCount-i); clamps (a φ whose every incoming edge is bounded: if thru > pageCount { thru = pageCount }); loop counters (φ(init, φ+c), c > 0: lower bound by induction from init, upper bound from the loop guard); a − b with a bounded above and b ≥ 0; keys read back from another selection set. " +
-			"A sink whose bound cannot be shown is reported with the bound that is missing. (R3, one clause of left-to-right evaluation) 'even'/'odd' recognise an already decided page by its presence in the set, so no handler deletes from a selection set — a negated term stores false. NOT decided: which pages a term selects beyond that (negation, even/odd arithmetic), order and repetition in collections, rejection of expressions outside the syntax — those are the meaning of the grammar over all expressions, not a shape of the code.",
-		Rules:       []string{"C31.R1 range: page numbers entering a selection set or collection are ≥ 1", "C31.R2 range: page numbers entering a selection set or collection are ≤ pageCount", "C31.R3 shape: nothing is deleted from a selection set (even/odd recognise a decided page by its presence)"},
+			"A sink whose bound cannot be shown is reported with the bound that is missing. (R3, one clause of left-to-right evaluation) 'even'/'odd' recognise an already decided page by its presence in the set, so no handler deletes from a selection set — a negated term stores false. (R4) every range over a page selection reads the value, false meaning taken out; (R5) in calcSelPages the term handler's call dominates every back edge of the loop over the terms. NOT decided: which pages a term selects beyond that (negation, even/odd arithmetic), order and repetition in collections, rejection of expressions outside the syntax — those are the meaning of the grammar over all expressions, not a shape of the code.",
+		Rules:       []string{"C31.R1 range: page numbers entering a selection set or collection are ≥ 1", "C31.R2 range: page numbers entering a selection set or collection are ≤ pageCount", "C31.R3 shape: nothing is deleted from a selection set (even/odd recognise a decided page by its presence)", "C31.R4 shape: every loop over a page selection reads the entry's value", "C31.R5 dominance: every term of the expression reaches the term handler, in order"},
 		Assumptions: []string{"tokens handed to the handlers match the selection syntax (ParsePageSelection ran), whose number groups are \\d+: strconv.Atoi results are ≥ 0", "pageCount ≥ 1 (a document has at least one page)"},
 		Level:       "other",
 		Technique:   "relational range argument on SSA: dominating-edge comparison facts, structural expression matching, φ-edge case split, induction on loop counters",
@@ -594,6 +594,10 @@ func runC31(c *Ctx) {
 	r.MinInst["C31.R1"] = 20
 	r.MinInst["C31.R2"] = 20
 	r.MinInst["C31.R3"] = 1
+	r.MinInst["C31.R4"] = 10
+	r.MinInst["C31.R5"] = 1
+	checkSelectionValueRead(c)
+	checkEveryTermEvaluated(c)
 	checkDecidedPagesStay(c)
 	sinks, exempt := collectC31Sinks(p)
 	for _, e := range exempt {
@@ -735,4 +739,125 @@ func fieldStoredIn(fn *ssa.Function, ap string) bool {
 		fieldStoreCache[fn] = m
 	}
 	return m[ap]
+}
+
+func init() {
+	extraDebug["selranges"] = func(p *Program) {
+		for _, fn := range p.Funcs {
+			if !isSubject(fn) {
+				continue
+			}
+			eachInstr(fn, func(_ *ssa.BasicBlock, _ int, i ssa.Instruction) {
+				rg, ok := i.(*ssa.Range)
+				if !ok || !isSelectionSet(rg.X.Type()) {
+					return
+				}
+				valUsed := false
+				for _, nx := range *rg.Referrers() {
+					n, ok := nx.(*ssa.Next)
+					if !ok {
+						continue
+					}
+					for _, ex := range *n.Referrers() {
+						if e, ok := ex.(*ssa.Extract); ok && e.Index == 2 && e.Referrers() != nil && len(*e.Referrers()) > 0 {
+							valUsed = true
+						}
+					}
+				}
+				fmt.Printf("%v\t%v\t%s\t%s\t%s\n", valUsed, isPageSelectionValue(rg.X), FuncID(fn), p.Pos(rg.Pos()), exprName(rg.X))
+			})
+		}
+	}
+}
+
+// ---------------- C31.R4 / R5 (round 3 seeds C31-C, C31-D) ----------------
+
+// R4: a page selection is a map page -> bool in which false means "taken out by a negated term"; membership is
+// not selection. Every loop over a page selection therefore reads the value; a loop over the keys alone treats
+// the pages of `!3` as selected (RemainingPagesForPageRemoval would remove page 3 for "1-5,!3").
+func checkSelectionValueRead(c *Ctx) {
+	p, r := c.P, c.R
+	n := 0
+	for _, fn := range p.Funcs {
+		if !isSubject(fn) {
+			continue
+		}
+		k := 0
+		eachInstr(fn, func(_ *ssa.BasicBlock, _ int, i ssa.Instruction) {
+			rg, ok := i.(*ssa.Range)
+			if !ok || !isSelectionSet(rg.X.Type()) || !isPageSelectionValue(rg.X) || rg.Referrers() == nil {
+				return
+			}
+			k++
+			n++
+			construct := fmt.Sprintf("range over page selection#%d", k)
+			valUsed := false
+			for _, nx := range *rg.Referrers() {
+				nn, ok := nx.(*ssa.Next)
+				if !ok || nn.Referrers() == nil {
+					continue
+				}
+				for _, ex := range *nn.Referrers() {
+					if e, ok := ex.(*ssa.Extract); ok && e.Index == 2 && e.Referrers() != nil && len(*e.Referrers()) > 0 {
+						valUsed = true
+					}
+				}
+			}
+			if valUsed {
+				r.OK("C31.R4", FuncID(fn), construct, p.Pos(rg.Pos()), "the loop reads the entry's value (false = taken out by a negated term)", true)
+			} else {
+				r.Bad("C31.R4", FuncID(fn), construct, p.Pos(rg.Pos()), "the loop over a page selection uses the keys only: an entry with the value false (a page a negated term such as !3 took out) is treated as selected")
+			}
+		})
+	}
+	if n == 0 {
+		r.Bad("C31.R4", "-", "anchor", "", "UNRESOLVED-ANCHOR: no loop over a page selection found")
+	}
+}
+
+// R5: terms are evaluated left to right and each one acts on the set as the terms before it left it, so the
+// same term can act differently at two positions ("1-3,!2,1-3" ends with page 2 selected; "even" after "!4").
+// calcSelPages therefore hands every element of the expression to the term handler: the call of
+// handlePageSelectionToken is reached on every iteration of the loop over the terms (no branch inside the
+// loop can skip it), and the loop runs over the whole slice.
+func checkEveryTermEvaluated(c *Ctx) {
+	p, r := c.P, c.R
+	const fid = "pkg/api.calcSelPages"
+	fn := p.Func(fid)
+	if fn == nil {
+		r.Bad("C31.R5", fid, "anchor", "", "UNRESOLVED-ANCHOR")
+		return
+	}
+	n := 0
+	for _, l := range naturalLoops(fn) {
+		var callBlk *ssa.BasicBlock
+		for b := range l.blocks {
+			for _, in := range b.Instrs {
+				if call, ok := in.(*ssa.Call); ok {
+					if f := staticCallee(call); f != nil && f.Name() == "handlePageSelectionToken" {
+						callBlk = b
+					}
+				}
+			}
+		}
+		if callBlk == nil {
+			continue
+		}
+		n++
+		// every back edge source must be dominated by the call block: no iteration completes without the call
+		skipped := false
+		for _, bk := range l.backs {
+			if !(callBlk == bk || callBlk.Dominates(bk)) {
+				skipped = true
+			}
+		}
+		if skipped {
+			r.Bad("C31.R5", fid, "every term is evaluated", p.Pos(lastPos(callBlk)), "an iteration of the loop over the selection's terms can reach the next term without calling the term handler: terms are evaluated left to right against the current set, a skipped (repeated, 'redundant') term changes the result — \"1-3,!2,1-3\" selects page 2, without the third term it does not")
+		} else {
+			r.OK("C31.R5", fid, "every term is evaluated", p.Pos(lastPos(callBlk)), "the term handler's call dominates every back edge of the loop over the terms", true)
+		}
+	}
+	if n == 0 {
+		r.Bad("C31.R5", fid, "every term is evaluated", p.Pos(fn.Pos()), "UNDECIDED: no loop that calls handlePageSelectionToken")
+	}
 }
